@@ -38,7 +38,7 @@ RECURSIVE Rep(_, _)
 Rep(str, n) == IF n = 0 THEN "" ELSE str \o Rep(str, n - 1)
 \* the last one makes a line of more than 4096 bytes (a text value runs to the end of its line, however long)
 Notices == {"", "Copyright (c) 2024 Test Foundry. All rights reserved.", "x", "(c) A; B", "Notice Notice", "100% free %v",
-            Rep("Long notice, sentence after sentence. ", 130)}
+            Rep("Long notice, sentence after sentence. ", 130) \o "End."}
 KernNames == {"A", "f", "N"}
 KernVals == {-50, 0, 10, 32767, -32768}
 KernRecs == [l : KernNames, r : KernNames, adj : KernVals]
